@@ -7,11 +7,23 @@ whose internal fuel is proved adequate) and EVERY span that reaches a later stag
 span in the AST, every lexical and syntax diagnostic span and label span — is ordered, lies inside the
 text and falls on character boundaries.  The renderer part (`Props/C07Render.lean`) consumes exactly
 `SafeSpan`.
+
+Behind the parser (section "the whole pipeline"): the warnings of the analysis passes and the
+resource-limit warning (`Pipeline.frontEnd`), and the runtime error a run ends with (`Pipeline.runSource`),
+are reported at spans of the parsed AST too — the resolver copies every span (`Lemmas/SpanSafeResolve`),
+the statement table of the analyses holds statement / name spans (`Lemmas/SpanSafeAnalysis`), the
+evaluator reports every runtime error at a span of the syntax it is evaluating or of a hoisted function
+body (`Lemmas/SpanSafeEval`) — so everything one pipeline run hands to the renderer renders.
 -/
 import NaijaVerif.Props.C07Lex
 import NaijaVerif.Props.C07Parse
 import NaijaVerif.Props.C07Render
 import NaijaVerif.Props.C07Resolve
+import NaijaVerif.Model.Pipeline
+import NaijaVerif.Lemmas.SpanSafeResolve
+import NaijaVerif.Lemmas.SpanSafeAnalysis
+import NaijaVerif.Lemmas.SpanSafeEval
+import NaijaVerif.Lemmas.EvalToy
 
 namespace NaijaVerif.C07
 open NaijaVerif NaijaVerif.Lex NaijaVerif.Parse NaijaVerif.Utf8 NaijaVerif.Props.C07Lex NaijaVerif.C07Parse
@@ -102,5 +114,339 @@ theorem accepted_iff_no_diagnostics (src : Bytes) :
 about them. -/
 example : ValidUtf8 (b!"make x get 1.é") := by decide
 example : (frontEnd (b!"make x get 1.é")).2 ≠ [] := by decide
+
+/-! ## The whole pipeline: analysis warnings, the resource-limit warning, the runtime error -/
+
+section pipeline
+open NaijaVerif.SpanSafe
+
+/-- `0..0` is a safe span of every text. -/
+theorem zero_span_safe (src : Bytes) : SafeSpan src ⟨0, 0⟩ :=
+  ⟨Nat.le_refl _, Nat.zero_le _, by simp [Bytes.isBoundary], by simp [Bytes.isBoundary]⟩
+
+/-- Where `Pipeline.frontEnd` stops and with what: the merged lexical / syntax diagnostics; or the
+checker's diagnostics; or the annotated program of the checker together with warnings each of which is
+a diagnostic of the checker, a warning of the analysis passes, or the resource-limit warning at the
+span of the root block. -/
+theorem pipeline_frontEnd_shape (caps : Limits.Caps) (src : Bytes) :
+    Pipeline.frontEnd caps src = .error (true, (frontEnd src).2) ∨
+    Pipeline.frontEnd caps src = .error (false, (Resolve.resolve (frontEnd src).1).diags) ∨
+    ∃ a, Pipeline.frontEnd caps src = .ok a ∧ a.root = (Resolve.resolve (frontEnd src).1).root ∧
+      ∀ d ∈ a.warnings, d ∈ (Resolve.resolve (frontEnd src).1).diags ∨
+        (∃ w ∈ (Analysis.analyse (Resolve.resolve (frontEnd src).1).root
+            (Resolve.resolve (frontEnd src).1).facts).warns, d = Pipeline.warnDiag w) ∨
+        d = Limits.limitWarning (frontEnd src).1.span := by
+  unfold Pipeline.frontEnd frontEnd
+  simp only []
+  split
+  · exact Or.inl rfl
+  · split
+    · exact Or.inr (Or.inl rfl)
+    · right; right
+      split
+      · refine ⟨_, rfl, rfl, ?_⟩
+        intro d hd
+        simp only [List.mem_append, List.mem_map] at hd
+        rcases hd with hd | ⟨w, hw, rfl⟩
+        · exact Or.inl hd
+        · exact Or.inr (Or.inl ⟨w, hw, rfl⟩)
+      · refine ⟨_, rfl, rfl, ?_⟩
+        intro d hd
+        simp only [List.mem_append] at hd
+        rcases hd with hd | hd
+        · exact Or.inl hd
+        · unfold Limits.emitAnalysis at hd
+          split at hd
+          · simp only [List.mem_singleton] at hd
+            exact Or.inr (Or.inr hd)
+          · simp only [List.mem_map] at hd
+            obtain ⟨w, hw, rfl⟩ := hd
+            exact Or.inr (Or.inl ⟨w, hw, rfl⟩)
+
+/-- Every span of the ANNOTATED program the pipeline analyses and runs is safe: the resolver copies the
+spans of the parsed program. -/
+theorem resolved_spans_safe (src : Bytes) (h : ValidUtf8 src) :
+    ∀ s ∈ blockSpans (Resolve.resolve (frontEnd src).1).root, SafeSpan src s := by
+  intro s hs
+  rw [resolve_blockSpans] at hs
+  exact (front_end_spans_safe src h).1 s hs
+
+/-- **C07 (analysis warnings)**: for every valid UTF-8 text and every setting of the resource caps, every
+warning an accepted text is run with — the checker's own, those of the analysis passes (unreachable
+code, unused assignment / variable / function: a statement span, the `var_span` of an assignment or
+the `name_span` of a definition of the annotated AST) and the resource-limit warning (span and label
+at the span of the root block) — has a safe span and safe label spans.  (The real `emit_warning`
+attaches to every pass warning ONE label, at the warning's own span.) -/
+theorem analysis_warning_spans_safe (caps : Limits.Caps) (src : Bytes) (h : ValidUtf8 src)
+    (a : Pipeline.Accepted) (ha : Pipeline.frontEnd caps src = .ok a) :
+    ∀ d ∈ a.warnings, ∀ s ∈ diagSpans d, SafeSpan src s := by
+  rcases pipeline_frontEnd_shape caps src with he | he | ⟨a', ha', _, hw⟩
+  · rw [he] at ha; cases ha
+  · rw [he] at ha; cases ha
+  · rw [ha'] at ha
+    cases ha
+    intro d hd s hs
+    rcases hw d hd with hr | ⟨w, hwm, rfl⟩ | rfl
+    · exact checker_diagnostic_spans_safe src h d hr s hs
+    · simp only [diagSpans, Pipeline.warnDiag, List.mem_cons, List.not_mem_nil, or_false] at hs
+      subst hs
+      rcases analyse_warn_spans _ _ w hwm with hin | hz
+      · exact resolved_spans_safe src h _ hin
+      · rw [hz]; exact zero_span_safe src
+    · have hroot : (frontEnd src).1.span ∈ blockSpans (frontEnd src).1 := by
+        cases (frontEnd src).1 with
+        | mk ss sp => simp [blockSpans, Block.span]
+      simp only [diagSpans, Limits.limitWarning, List.mem_cons, List.not_mem_nil, or_false, or_self] at hs
+      subst hs
+      exact (front_end_spans_safe src h).1 _ hroot
+
+variable {N : Type} [NumOps N]
+
+/-- **C07 (runtime error)**: for every valid UTF-8 text, every setting of the caps, every run
+configuration (lookup mode, host policy, process runner, input) and every amount of fuel: when the
+shipped pipeline runs the text and the run ends in a runtime error, the span the error is reported at
+is a span of the annotated program — the evaluator builds no span of its own — hence safe to slice
+the text with. -/
+theorem runtime_error_span_safe (caps : Limits.Caps) (cfg : Eval.RunCfg) (fuel : Nat) (src : Bytes)
+    (h : ValidUtf8 src) (w : List Diag) (kind : Eval.RtKind) (sp : Span) (out : List (Eval.Value N))
+    (hrun : (Pipeline.runSource caps cfg fuel src : Pipeline.Result N) = .ran w (.rt kind sp out)) :
+    SafeSpan src sp := by
+  unfold Pipeline.runSource at hrun
+  rcases pipeline_frontEnd_shape caps src with he | he | ⟨a, ha, hroot, _⟩
+  · rw [he] at hrun; cases hrun
+  · rw [he] at hrun; cases hrun
+  · rw [ha] at hrun
+    simp only [Pipeline.Result.ran.injEq] at hrun
+    have hin : sp ∈ blockSpans a.root :=
+      run_rt_span (S := fun s => s ∈ blockSpans a.root) _ fuel a.root (fun s hs => hs) hrun.2
+    rw [hroot] at hin
+    exact resolved_spans_safe src h sp hin
+
+/-- **C07 (every span of a pipeline run)**: whatever `Pipeline.runSource` answers — rejected with the
+lexical / syntax diagnostics, rejected with the checker's diagnostics, or run with warnings and an
+outcome — every diagnostic it carries has a safe span and safe label spans, and so has the runtime
+error if the run ended with one. -/
+theorem pipeline_spans_safe (caps : Limits.Caps) (cfg : Eval.RunCfg) (fuel : Nat) (src : Bytes)
+    (h : ValidUtf8 src) :
+    match (Pipeline.runSource caps cfg fuel src : Pipeline.Result N) with
+    | .syntax ds => ∀ d ∈ ds, ∀ s ∈ diagSpans d, SafeSpan src s
+    | .semantic ds => ∀ d ∈ ds, ∀ s ∈ diagSpans d, SafeSpan src s
+    | .ran ws o => (∀ d ∈ ws, ∀ s ∈ diagSpans d, SafeSpan src s) ∧
+        ∀ k sp out, o = .rt k sp out → SafeSpan src sp := by
+  cases hr : (Pipeline.runSource caps cfg fuel src : Pipeline.Result N) with
+  | «syntax» ds =>
+    simp only []
+    unfold Pipeline.runSource at hr
+    rcases pipeline_frontEnd_shape caps src with he | he | ⟨a, ha, _, _⟩
+    · rw [he] at hr
+      simp only [Pipeline.Result.syntax.injEq] at hr
+      subst hr
+      exact (front_end_spans_safe src h).2
+    · rw [he] at hr; cases hr
+    · rw [ha] at hr; cases hr
+  | semantic ds =>
+    simp only []
+    unfold Pipeline.runSource at hr
+    rcases pipeline_frontEnd_shape caps src with he | he | ⟨a, ha, _, _⟩
+    · rw [he] at hr; cases hr
+    · rw [he] at hr
+      simp only [Pipeline.Result.semantic.injEq] at hr
+      subst hr
+      exact checker_diagnostic_spans_safe src h
+    · rw [ha] at hr; cases hr
+  | ran ws o =>
+    simp only []
+    refine ⟨?_, ?_⟩
+    · unfold Pipeline.runSource at hr
+      cases ha : Pipeline.frontEnd caps src with
+      | error e =>
+        rw [ha] at hr
+        obtain ⟨b, ds⟩ := e
+        cases b <;> cases hr
+      | ok a =>
+        rw [ha] at hr
+        simp only [Pipeline.Result.ran.injEq] at hr
+        rw [← hr.1]
+        exact analysis_warning_spans_safe caps src h a ha
+    · intro k sp out ho
+      subst ho
+      exact runtime_error_span_safe caps cfg fuel src h ws k sp out hr
+
+/-! ### … and all of it renders -/
+
+open NaijaVerif.Props.C07Render (ofDiag c07_render_total DiagSafe)
+
+/-- A way of handing a model diagnostic to the renderer that invents no span: the rendered diagnostic
+has the diagnostic's span, and each of its labels sits at the diagnostic's own span or at one of its
+label spans (whatever the code, message and label texts are). -/
+def NoNewSpan (toR : Diag → Render.RDiag) : Prop :=
+  ∀ d, (toR d).span = d.span ∧ ∀ l ∈ (toR d).labels, l.span ∈ diagSpans d
+
+/-- `ofDiag` (one rendered label per label span, as for the lexer's, parser's and checker's
+diagnostics) invents no span. -/
+theorem ofDiag_noNewSpan (code msg : Diag → Bytes) (labelMsg : Diag → Nat → Bytes) :
+    NoNewSpan (ofDiag code msg labelMsg) := by
+  intro d
+  refine ⟨rfl, ?_⟩
+  intro l hl
+  simp only [ofDiag, List.mem_map] at hl
+  obtain ⟨p, hp, rfl⟩ := hl
+  simp only [diagSpans, List.mem_cons]
+  exact Or.inr (List.fst_mem_of_mem_zipIdx hp)
+
+/-- A warning as `Resolver::emit_warning` emits it for the analysis passes: ONE label, at the warning's
+own span. -/
+def ownLabel (code msg labelMsg : Diag → Bytes) (d : Diag) : Render.RDiag :=
+  { sev := d.sev, code := code d, msg := msg d, span := d.span, labels := [⟨labelMsg d, d.span⟩] }
+
+theorem ownLabel_noNewSpan (code msg labelMsg : Diag → Bytes) : NoNewSpan (ownLabel code msg labelMsg) := by
+  intro d
+  refine ⟨rfl, ?_⟩
+  intro l hl
+  simp only [ownLabel, List.mem_singleton] at hl
+  subst hl
+  simp [diagSpans]
+
+/-- The diagnostic `Runtime::run_inner` emits for a runtime error: an error at the error's span with
+one label at the same span (texts: any function of the kind). -/
+def rtDiag (text : Eval.RtKind → Bytes × Bytes × Bytes) (k : Eval.RtKind) (sp : Span) : Render.RDiag :=
+  { sev := .error, code := (text k).1, msg := (text k).2.1, span := sp, labels := [⟨(text k).2.2, sp⟩] }
+
+/-- Everything `cmd.rs::run_source` hands to `render_ansi` in one pipeline run, call by call: the
+merged lexical / syntax diagnostics of a rejected text; the checker's diagnostics of a rejected text;
+for an accepted text the warnings (before the run) and, after the run, the runtime error if the run
+ended with one. -/
+def renderCalls (toR : Diag → Render.RDiag) (text : Eval.RtKind → Bytes × Bytes × Bytes) :
+    Pipeline.Result N → List (List Render.RDiag)
+  | .syntax ds => [ds.map toR]
+  | .semantic ds => [ds.map toR]
+  | .ran ws (.rt k sp _) => [ws.map toR, [rtDiag text k sp]]
+  | .ran ws _ => [ws.map toR]
+
+/-- **C07 (the complete diagnostic output renders)**: for every valid UTF-8 text, file name, caps, run
+configuration and fuel, every call of `render_ansi` a pipeline run makes — front-end diagnostics when
+the text is rejected; the warnings, and the runtime error if any, when it is run — returns: no slice
+out of range, reversed or off a character boundary, no column underflow — whatever the codes,
+messages and label texts are, as long as no span is invented (`NoNewSpan`: `ofDiag`, `ownLabel`). -/
+theorem pipeline_diagnostics_render (src file : Bytes) (h : ValidUtf8 src) (caps : Limits.Caps)
+    (cfg : Eval.RunCfg) (fuel : Nat) (toR : Diag → Render.RDiag) (hR : NoNewSpan toR)
+    (text : Eval.RtKind → Bytes × Bytes × Bytes) :
+    ∀ ds ∈ renderCalls toR text (Pipeline.runSource caps cfg fuel src : Pipeline.Result N),
+      Render.renderAnsi src file ds ≠ none := by
+  have hmap : ∀ l : List Diag, (∀ d ∈ l, ∀ s ∈ diagSpans d, SafeSpan src s) →
+      Render.renderAnsi src file (l.map toR) ≠ none := by
+    intro l hl
+    apply c07_render_total src file _ h
+    intro rd hrd
+    obtain ⟨d, hdm, rfl⟩ := List.mem_map.mp hrd
+    refine ⟨?_, ?_⟩
+    · rw [(hR d).1]; exact hl d hdm d.span (by simp [diagSpans])
+    · intro lb hlb
+      exact hl d hdm lb.span ((hR d).2 lb hlb)
+  have hs := pipeline_spans_safe (N := N) caps cfg fuel src h
+  intro ds hds
+  cases hr : (Pipeline.runSource caps cfg fuel src : Pipeline.Result N) with
+  | «syntax» l =>
+    rw [hr] at hs hds
+    simp only [renderCalls, List.mem_singleton] at hds
+    subst hds
+    exact hmap l hs
+  | semantic l =>
+    rw [hr] at hs hds
+    simp only [renderCalls, List.mem_singleton] at hds
+    subst hds
+    exact hmap l hs
+  | ran ws o =>
+    rw [hr] at hs hds
+    simp only [] at hs
+    cases o with
+    | rt k sp out =>
+      simp only [renderCalls, List.mem_cons, List.not_mem_nil, or_false] at hds
+      rcases hds with rfl | rfl
+      · exact hmap ws hs.1
+      · apply c07_render_total src file _ h
+        intro rd hrd
+        simp only [List.mem_singleton] at hrd
+        subst hrd
+        have hsp := hs.2 k sp out rfl
+        refine ⟨hsp, ?_⟩
+        intro lb hlb
+        simp only [rtDiag, List.mem_singleton] at hlb
+        subst hlb
+        exact hsp
+    | ok out =>
+      simp only [renderCalls, List.mem_singleton] at hds
+      subst hds
+      exact hmap ws hs.1
+    | panic site out =>
+      simp only [renderCalls, List.mem_singleton] at hds
+      subst hds
+      exact hmap ws hs.1
+    | fuelOut =>
+      simp only [renderCalls, List.mem_singleton] at hds
+      subst hds
+      exact hmap ws hs.1
+
+end pipeline
+
+/-! Non-vacuity of the pipeline theorems (toy numbers over `Int`, the default caps of the crate). -/
+
+section pipeline_examples
+open NaijaVerif.Eval (Toy.cfg)
+
+/-- `DEFAULT_CAPS` (the values; the theorems hold for every setting). -/
+def exampleCaps : Limits.Caps :=
+  { maxFunctions := 16384, maxLocals := 131072, maxScopes := 131072, maxStatements := 262144,
+    maxTotalOps := 262144, maxOpsPerFunction := 262144, maxTotalBlocks := 524288,
+    maxBlocksPerFunction := 65536, maxDirectUserCalls := 262144, maxSummaryEvents := 16777216,
+    maxLivenessEvents := 33554432 }
+
+/-- A runtime error inside an expression AFTER a multi-byte string literal: `é` is two bytes, so the
+division `1 divide 0` starts at byte 16 (column 16 counts characters: 15 before it). -/
+def rtText : Bytes := b!"shout(\"né\" add 1 divide 0)"
+
+/-- An analysis warning on a line that holds multi-byte characters (`€` is three bytes, `é` two). -/
+def warnText : Bytes := b!"make y get \"€€\" add \"é\"\nshout(1)"
+
+/-- What a result shows of its spans: the diagnostics' kinds and spans, and the runtime error's. -/
+def spansShown : Pipeline.Result Int → List (DiagKind × Span) × Option (Eval.RtKind × Span)
+  | .syntax ds => (ds.map fun d => (d.kind, d.span), none)
+  | .semantic ds => (ds.map fun d => (d.kind, d.span), none)
+  | .ran ws (.rt k sp _) => (ws.map fun d => (d.kind, d.span), some (k, sp))
+  | .ran ws _ => (ws.map fun d => (d.kind, d.span), none)
+
+example : ValidUtf8 rtText ∧ ValidUtf8 warnText := by decide
+/-- the run of `rtText` ends in `Division by zero` at bytes 16..27 (the real binary: `a.ns:1:16`, eleven
+carets), with no warning -/
+example : spansShown (Pipeline.runSource exampleCaps Toy.cfg 20 rtText) =
+    ([], some (.divisionByZero, ⟨16, 27⟩)) := by decide +kernel
+/-- `warnText` is run with two warnings on line 1: unused assignment at the statement 0..34, unused
+variable at the name 5..6 (the real binary: `c.ns:1:1` with 23 carets, `c.ns:1:6`) -/
+example : spansShown (Pipeline.runSource exampleCaps Toy.cfg 20 warnText) =
+    ([(.unusedAssignment, ⟨0, 34⟩), (.unusedVariable, ⟨5, 6⟩)], none) := by decide +kernel
+/-- … and with a statement cap of 1 with the one resource-limit warning at the root span 0..37 -/
+example : spansShown (Pipeline.runSource { exampleCaps with maxStatements := 1 } Toy.cfg 20 warnText) =
+    ([(.analysisLimit, ⟨0, 37⟩)], none) := by decide +kernel
+/-- the theorems speak about these runs: two renderer calls for `rtText` (no warnings, then the runtime
+error), one for `warnText` with two diagnostics, and every call returns -/
+example : (renderCalls (ownLabel (fun _ => b!"semantic") (fun _ => b!"m") (fun _ => b!"l"))
+      (fun _ => (b!"runtime", b!"Division by zero", b!"Zero no fit be divisor"))
+      (Pipeline.runSource exampleCaps Toy.cfg 20 rtText : Pipeline.Result Int)).map List.length = [0, 1] ∧
+    (renderCalls (ownLabel (fun _ => b!"semantic") (fun _ => b!"m") (fun _ => b!"l"))
+      (fun _ => (b!"runtime", b!"Division by zero", b!"Zero no fit be divisor"))
+      (Pipeline.runSource exampleCaps Toy.cfg 20 warnText : Pipeline.Result Int)).map List.length = [2] := by
+  decide +kernel
+example (file : Bytes) :
+    ∀ ds ∈ renderCalls (ownLabel (fun _ => b!"semantic") (fun _ => b!"m") (fun _ => b!"l"))
+      (fun _ => (b!"runtime", b!"Division by zero", b!"Zero no fit be divisor"))
+      (Pipeline.runSource exampleCaps Toy.cfg 20 rtText : Pipeline.Result Int),
+      Render.renderAnsi rtText file ds ≠ none :=
+  pipeline_diagnostics_render rtText file (by decide) exampleCaps Toy.cfg 20 _ (ownLabel_noNewSpan _ _ _) _
+/-- the renderer is not indifferent to these spans: a span that starts at byte 9, in the middle of the
+two-byte `é` (bytes 8..10), makes it fail -/
+example : Render.renderAnsi rtText (b!"a.ns") [⟨.error, b!"runtime", b!"m", ⟨9, 10⟩, []⟩] = none := by
+  decide +kernel
+
+end pipeline_examples
 
 end NaijaVerif.C07
